@@ -12,7 +12,7 @@ ALL = ["C%02d" % i for i in range(1, 20)]
 
 checks = []
 for pid in ALL:
-    if pid not in REGISTRY:
+    if pid not in REGISTRY or REGISTRY[pid].get("claimed") is False:
         continue
     r = REGISTRY[pid]
     t = MANIFEST_TEXT[pid]
@@ -27,7 +27,7 @@ for pid in ALL:
         "level_note": t["note"],
         "technique": t["technique"],
     })
-na = [{"property_id": p, "reason": NOT_APPLICABLE[p]} for p in ALL if p not in REGISTRY]
+na = [{"property_id": p, "reason": NOT_APPLICABLE[p]} for p in ALL if p not in REGISTRY or REGISTRY[p].get("claimed") is False]
 doc = {
     "version": 1,
     "setup_cmd": "cd lean && lake build CoCoVerif driver",
